@@ -515,6 +515,7 @@ func runC01(c *Ctx, tier string) {
 	// ---- K1
 	runC01K1(c)
 	runDecodedStringsOwnBytes(c, "C01-U1")
+	runOnlyPooledBuffersFreed(c, "C01-O9")
 }
 
 func sameWork(resultChVal, workVal ssa.Value) bool {
